@@ -86,6 +86,8 @@ def instantiate(v, choices, picks, g, ctx=None, types=None):
             kind = None
             if types is not None and ('kind:' + v.name) in choices:
                 kind = types.enums['Statement'][choices['kind:' + v.name]][0]
+            if ctx == 'simple':
+                return b.expr_stmt(b.var('o_' + v.name))          # the header of a `for` takes simple statements only
             if kind == 'Args':
                 return b.args_stmt([('value', b.var('o_' + v.name))])
             if kind == 'Block':
@@ -115,6 +117,8 @@ def instantiate(v, choices, picks, g, ctx=None, types=None):
         fctx = [None] * len(v.fields)
         if v.ty == 'Statement' and v.variant == 'For':
             fctx = [None, 'simple', None, 'simple', None]
+        elif v.ty == 'Option':
+            fctx = [ctx] * len(v.fields)                              # the context of an optional child is the context of the child
         elif v.ty == 'Statement' and v.variant in ('Try', 'Emit'):
             fctx = [None, 'call'] + [None] * (len(v.fields) - 2)
         elif v.ty == 'Expression' and v.variant == 'New':
